@@ -513,8 +513,28 @@ theorem parse6_dc (l r : Str) (a b : List Nat) (L : Segs) (hL : L.Good) (hl : l 
     · rw [if_pos (hu.mpr hc), if_neg (by omega)]
     · rw [if_neg (fun h => hc (hu.mp h)), if_pos (by omega)]
       simp only
-      rw [quad_bytes, hv, ha, haL, hbR]
+      rw [quad_bytes, haL, hbR, ha, hv]
       simp only [List.append_assoc]
+
+theorem denote6_dc_inv (x y : Option (List Nat)) (bs : Bytes)
+    (h : (match x, y with
+      | some a, some b =>
+        if a.length + b.length ≤ 7 then some (groupBytes (a ++ List.replicate (8 - a.length - b.length) 0 ++ b)) else none
+      | _, _ => none) = some bs) :
+    ∃ a b, x = some a ∧ y = some b ∧ a.length + b.length ≤ 7 ∧
+      bs = groupBytes (a ++ List.replicate (8 - a.length - b.length) 0 ++ b) := by
+  cases x with
+  | none => simp at h
+  | some a =>
+    cases y with
+    | none => simp at h
+    | some b =>
+      simp only at h
+      by_cases hab : a.length + b.length ≤ 7
+      · rw [if_pos hab] at h
+        simp only [Option.some.injEq] at h
+        exact ⟨a, b, rfl, rfl, hab, h.symm⟩
+      · rw [if_neg hab] at h; simp at h
 
 /-- **the parser returns the denotation of every RFC 4291 text**, except that it refuses (RuntimeError) the texts
     characterised by `unsupported6` -/
@@ -541,20 +561,10 @@ theorem parse6_denote (s : Str) (bs : Bytes) (h : denote6 s = some bs) :
     obtain ⟨l, r⟩ := lr
     rw [hd] at h
     simp only at h ⊢
-    cases hva : listVals l false with
-    | none => rw [hva] at h; simp at h
-    | some a =>
-      cases hvb : listVals r true with
-      | none => rw [hva, hvb] at h; simp at h
-      | some b =>
-        rw [hva, hvb] at h
-        simp only at h ⊢
-        by_cases hab : a.length + b.length ≤ 7
-        · rw [if_pos hab] at h
-          simp only [Option.some.injEq] at h
-          obtain ⟨L, hL, hl, ha⟩ := (side_of_listVals l false a hva).2 rfl
-          rw [splitDC_eq s l r hd, ← h]
-          exact parse6_dc l r a b L hL hl ha (side_of_listVals r true b hvb).1 hab
-        · rw [if_neg hab] at h; simp at h
+    obtain ⟨a, b, hva, hvb, hab, hbs⟩ := denote6_dc_inv _ _ bs h
+    simp only [hva, hvb]
+    obtain ⟨L, hL, hl, ha⟩ := (side_of_listVals l false a hva).2 rfl
+    rw [splitDC_eq s l r hd, hbs]
+    exact parse6_dc l r a b L hL hl ha (side_of_listVals r true b hvb).1 hab
 
 end Pox.Addr
